@@ -19,8 +19,8 @@ RULE = (
 EXHAUSTIVE = {"quick": True, "thorough": True}
 EXHAUSTIVE_PART = "all nuclide bases, elements, burn-chain entries and material classes (temperatures are a grid over each stated range)"
 TOLERANCES = {"abundance_sum": 1e-6, "massfrac_sum": 1e-5}
-FLOORS = {"quick": {"nuclide": 4000, "element": 100, "burnchain.entry": 100, "material": 40, "material.T": 500},
-          "thorough": {"nuclide": 4000, "element": 100, "burnchain.entry": 100, "material": 40, "material.T": 5000}}
+FLOORS = {"quick": {"nuclide": 4000, "element": 100, "burnchain.entry": 100, "material": 40, "material.T": 500, "nucDir.natural": 200, "nucDir.natural-mass": 60, "nucDir.members": 100},
+          "thorough": {"nuclide": 4000, "element": 100, "burnchain.entry": 100, "material": 40, "material.T": 5000, "nucDir.natural": 200, "nucDir.natural-mass": 60, "nucDir.members": 100}}
 
 SYMBOLS = ("H HE LI BE B C N O F NE NA MG AL SI P S CL AR K CA SC TI V CR MN FE CO NI CU ZN GA GE AS SE BR KR RB SR Y ZR NB MO TC RU RH PD "
            "AG CD IN SN SB TE I XE CS BA LA CE PR ND PM SM EU GD TB DY HO ER TM YB LU HF TA W RE OS IR PT AU HG TL PB BI PO AT RN FR RA AC TH "
@@ -210,6 +210,28 @@ def do_elements(spec, rec, rng):
                 rec.violation("element/standard-weight", "%s standard weight %r, abundance-weighted mean %r" % (e.symbol, e.standardWeight, sw), w)
             if e.symbol not in nb.byName:
                 rec.violation("element/no-natural-nuclide", "naturally occurring %s has no natural nuclide base" % e.symbol, w)
+        # the nucDir helper views of the same data, judged against a naive walk over the registered nuclides
+        try:
+            from armi.nucDirectory import nucDir
+
+            walk = [n for n in nb.instances if isinstance(n, nb.NuclideBase) and n.z == z]
+            want = sorted((n.a, n.abundance) for n in walk if n.abundance > 0)
+            for how, got in (("symbol", nucDir.getNaturalIsotopics(elementSymbol=e.symbol)), ("z", nucDir.getNaturalIsotopics(z=z))):
+                rec.hit("nucDir.natural")
+                if sorted(got) != want:
+                    rec.violation("nucDir/natural-isotopics", "nucDir.getNaturalIsotopics(%s) of %s is %r, the directory's nuclides with an abundance are %r" % (how, e.symbol, sorted(got), want), w)
+            if want:
+                rec.hit("nucDir.natural-mass")
+                gm = sorted(nucDir.getNaturalMassIsotopics(elementSymbol=e.symbol))
+                tm = sum(a * f for a, f in want)
+                wm = sorted((a, a * f / tm) for a, f in want)
+                if len(gm) != len(wm) or any(ga != wa or abs(gf - wf) > 1e-12 for (ga, gf), (wa, wf) in zip(gm, wm)) or abs(sum(f for _a, f in gm) - 1.0) > 1e-12:
+                    rec.violation("nucDir/natural-mass-isotopics", "nucDir.getNaturalMassIsotopics(%s) is %r, A-weighted abundances give %r" % (e.symbol, gm, wm), w)
+            rec.hit("nucDir.members")
+            if set(map(id, nucDir.getNuclides(elementSymbol=e.symbol))) != set(id(n) for n in nb.instances if getattr(n, "z", None) == z and getattr(n, "element", None) is e):
+                rec.violation("nucDir/element-members", "nucDir.getNuclides(elementSymbol=%r) differs from the registered nuclides of that element" % e.symbol, w)
+        except Exception as ex:
+            rec.crash("nucDir-element-helpers", ex, w)
         rec.case(["element", z], nontrivial=bool(iso), sample={"element": e.symbol, "isotopes": len(iso), "abundance_sum": tot} if z in (26, 92) else None)
 
 
